@@ -248,7 +248,7 @@ theorem mem_insertBy {α} (k : α → List Nat) (x y : α) (l : List α) :
           · exact Or.inr (List.mem_cons_of_mem _ h)
       · exact Or.inr h
 
-theorem mem_insertBy_of_mem {α} (k : α → List Nat) (x y : α) (l : List α) :
+theorem mem_insertBy_of_mem_fx {α} (k : α → List Nat) (x y : α) (l : List α) :
     y ∈ l → y ∈ insertBy k x l := by
   induction l with
   | nil => intro h; cases h
@@ -295,7 +295,7 @@ theorem insertBy_covers {α} (k : α → List Nat) (x : α) (l : List α) :
         refine ⟨z, List.mem_cons_self .., ?_⟩
         exact (lexLt_tri _ _ (by simpa using h1) (by simpa using h2)).symm
 
-theorem mem_foldl_insertBy {α} (k : α → List Nat) (l acc : List α) (y : α) :
+theorem mem_foldl_insertBy_fx {α} (k : α → List Nat) (l acc : List α) (y : α) :
     y ∈ l.foldl (fun acc x => insertBy k x acc) acc → y ∈ acc ∨ y ∈ l := by
   induction l generalizing acc with
   | nil => intro h; exact Or.inl h
@@ -313,7 +313,7 @@ theorem foldl_insertBy_mono {α} (k : α → List Nat) (l acc : List α) (y : α
   | nil => intro h; exact h
   | cons x xs ih =>
     rintro ⟨z, hz, he⟩
-    exact ih _ ⟨z, mem_insertBy_of_mem k x z acc hz, he⟩
+    exact ih _ ⟨z, mem_insertBy_of_mem_fx k x z acc hz, he⟩
 
 theorem foldl_insertBy_covers {α} (k : α → List Nat) (l acc : List α) (y : α) :
     y ∈ l → ∃ z ∈ l.foldl (fun acc x => insertBy k x acc) acc, k z = k y := by
@@ -327,10 +327,10 @@ theorem foldl_insertBy_covers {α} (k : α → List Nat) (l acc : List α) (y : 
     · exact ih _ h
 
 /-- members of `sortDedup k l` are members of `l` -/
-theorem mem_sortDedup {α} (k : α → List Nat) (l : List α) (y : α) :
+theorem mem_sortDedup_fx {α} (k : α → List Nat) (l : List α) (y : α) :
     y ∈ sortDedup k l → y ∈ l := by
   intro h
-  rcases mem_foldl_insertBy k l [] y h with h | h
+  rcases mem_foldl_insertBy_fx k l [] y h with h | h
   · cases h
   · exact h
 
@@ -339,7 +339,7 @@ theorem sortDedup_covers {α} (k : α → List Nat) (l : List α) (y : α) :
     y ∈ l → ∃ z ∈ sortDedup k l, k z = k y :=
   foldl_insertBy_covers k l [] y
 
-theorem MPath.key_inj (a b : MPath) (h : a.key = b.key) : a = b := by
+theorem MPath.key_inj_fx (a b : MPath) (h : a.key = b.key) : a = b := by
   unfold MPath.key at h
   rcases List.append_inj' h rfl with ⟨h1, h2⟩
   rcases a with ⟨ab, am⟩
@@ -632,7 +632,7 @@ theorem tidy_ok_inv (main : Mod) (reg : Reg) (fuel : Nat) (ds : List Dep)
 theorem mem_depsOf (roots : List (MPath × Nat)) (dflts : List (Path × Nat)) (d : Dep)
     (h : d ∈ depsOf roots dflts) :
     (d.mp, d.rank) ∈ roots ∧ d.dflt = (lookupD dflts d.mp.base == some d.mp.major) := by
-  have := mem_sortDedup _ _ _ h
+  have := mem_sortDedup_fx _ _ _ h
   rcases List.mem_map.1 this with ⟨r, hr, he⟩
   subst he
   exact ⟨hr, rfl⟩
@@ -741,7 +741,7 @@ theorem depsOf_members (roots : List (MPath × Nat)) (dflts : List (Path × Nat)
       List.mem_map.2 ⟨(mp, v), h, rfl⟩
     rcases sortDedup_covers (fun d : Dep => d.mp.key) _ _ hm with ⟨z, hz, hk⟩
     refine ⟨z, hz, ?_⟩
-    have hzmp : z.mp = mp := MPath.key_inj _ _ hk
+    have hzmp : z.mp = mp := MPath.key_inj_fx _ _ hk
     refine ⟨hzmp, ?_⟩
     have hzr := (mem_depsOf roots dflts z hz).1
     rw [hzmp] at hzr
@@ -1003,7 +1003,7 @@ theorem wfMain_flags_norm (main : Mod) (hwf : wfMain main = true) :
     ∀ d ∈ (normMod main).deps,
       d.dflt = (lookupD (fileDflts (normMod main)) d.mp.base == some d.mp.major) := by
   rcases wfMain_inv main hwf with ⟨a, b, c⟩
-  have hsub : ∀ d, d ∈ (normMod main).deps → d ∈ main.deps := fun d hd => mem_sortDedup _ _ d hd
+  have hsub : ∀ d, d ∈ (normMod main).deps → d ∈ main.deps := fun d hd => mem_sortDedup_fx _ _ d hd
   have hsubL : ∀ e, e ∈ fileDflts (normMod main) → e ∈ fileDflts main := by
     intro e he
     rcases (mem_fileDflts (normMod main) e).1 he with h | ⟨d', hd', hf, h⟩
@@ -1116,7 +1116,7 @@ theorem preach_iff_mvs_reach_enc (reg : Reg) (roots : List (MPath × Nat)) (mp :
 
 /-! ## TESTS: the hypotheses are satisfiable on a small universe (samples, not the property) -/
 
-namespace Ex
+namespace FixExample
 
 def main0 : Mod := ⟨⟨[8,5],0⟩, 0, [], [⟨[8,5,10], [⟨[8,1,10], none⟩]⟩]⟩
 def mods : List Mod := [⟨⟨[8,1],0⟩, 3, [], [⟨[8,1,10], []⟩]⟩]
@@ -1145,6 +1145,6 @@ example : checkTidy main1 (regOf mods) 50 = .ok := by decide
 /-- … on which `tidy` is a no-op (instance of `check_ok_tidy_noop`) -/
 example : tidy main1 (regOf mods) 50 = .ok [dep1] := by rfl
 
-end Ex
+end FixExample
 
 end CueVerif.Tidy
